@@ -670,13 +670,19 @@ RULE = ("histories over 2..4 addresses drawn from a pool of int and float ranges
         "non-representable decimal bounds, a degenerate and a tiny range) and 2..6 controllers (channel/NRPN spellings "
         "mixed, aliases of one id included): fully synchronous histories; histories quiescent at map/unMap/clear with "
         "several learns in flight; random asynchronous interleavings; D19-shaped crossings; 128-value sweeps through a "
-        "coarse(+fine) binding; second-controller / both-kinds / clear-with-queue histories; 32 controllers offered at once; 34..70 learn/unMap cycles (the 32-slot pending ring wraps); and every placement of <=3 (quick) / <=5 (thorough) deliveries into short histories. "
+        "coarse(+fine) binding; second-controller / both-kinds / clear-with-queue histories; clear() between the two halves' messages "
+        "(watch used up, midi-use-CC still on its way, every order of the following deliveries, then a fresh learn); map/unMap/clear "
+        "sent while answered controllers are still pending; 32 controllers offered at once; 33..40 offered at once (tie only, outside the "
+        "quantifier); 34..70 learn/unMap cycles (the 32-slot pending ring wraps); and every placement of <=3 (quick) / <=5 (thorough) "
+        "deliveries into short histories. The side condition nocross is computed by the Coq model (extracted) and by the plug-in on every "
+        "history and compared. "
         "Each history ends with a drain and two values per controller. Non-trivial = Spec holds, >=2 assignments and "
         ">=2 parameter messages.")
 TRUSTED = ["harness/h_C20.cpp: real MidiMappernRT + MidiMapperRT, rt_cb / frontend queued by the harness, nRT->RT messages "
            "dispatched through MidiMapperRT::ports, backend messages decoded by hand; one forked child per case",
            "tools/props/C20.py spec_walk: the property text as a checker over (history, records) - tracks learn queue, "
-           "assignments on both sides and 7-bit values, never an index",
+           "assignments on both sides and 7-bit values, never an index; classify(): nocross + pending_before (the pending set as the "
+           "records imply it) decide whether a failure is the known finding",
            "Flocq 4.x (Core, Calc.Round/Bracket, Prop.Relative/Plus_error) and the standard library's real numbers under "
            "C20_bijection_range / _monotone / _monotone_7bit (axioms: ClassicalDedekindReals.sig_forall_dec, sig_not_dec, "
            "Classical_Prop.classic, functional_extensionality_dep); the float model has no overflow / NaN / -0.0"]
@@ -687,24 +693,29 @@ ASSUMPTIONS = ["controller values are 7-bit (0..127); port bounds are finite flo
 TECHNIQUE = ("Coq proofs about a two-process model (nRT half, RT half, two FIFO channels, histories = external events + "
              "deliveries) of midimapper.cpp + differential correspondence against the real classes under ASan with "
              "harness-controlled delivery order")
-LEVEL_TEXT = ("For every history (unbounded) of map/unMap/clear/CC/deliveries that is quiescent (no midi-bind other than the answer "
-              "to a midi-use-CC is sent while a controller is pending, none is offered while such a bind is under way) over at most "
+LEVEL_TEXT = ("For every history (unbounded) of map/unMap/clear/CC/deliveries in which no midi-bind crosses a midi-use-CC (nocross: a bind "
+              "other than the answer to a midi-use-CC is sent only when every pending controller's answer is already on its way, and no "
+              "controller is offered while such a bind is under way) over at most "
               "32 controllers: no snapshot on either side ever holds a controller twice and every offered controller finds a queued "
-              "address and is in no entry of the current snapshot (C20_quiescent_learn_partial, invariant over both processes, the "
-              "channels and the PendingQueue ring). Per operation, for all states: 14-bit composition (C20_compose_14bit), the "
+              "address and is in no entry of the current snapshot (C20_nocross_learn_partial, invariant over both processes, the "
+              "channels and the PendingQueue ring); the history never crashes (C20_nocross_crash_free_partial); its records - parameter "
+              "messages with their values included - are those of the abstract specification (C20_refines_spec_partial). Per operation, "
+              "for all states: 14-bit composition (C20_compose_14bit), the "
               "learned controller gets the slot with the queued address's callback and all others keep theirs "
-              "(C20_learn_oldest_partial: first controller of an address), unMap removes exactly the controller "
+              "(C20_learn_oldest), unMap removes exactly the controller "
               "(C20_unmap_stops), no entry => no message (C20_unassigned_silent), bind installs the snapshot (C20_bind_installs); "
               "every callback sends to its own address a value in [min,max] that grows with the 14-bit input "
               "(C20_bijection_range/_monotone/_monotone_7bit, for the executable rounding, proved equal to Flocq's round-to-nearest-even). The unrestricted statement is refuted by a computed "
-              "witness (C20_refuted = D19, reproduced on the code, known finding). All theorems closed under the global context.")
-LEVEL_NOTE = ("Stage 2: the system invariant Inv (inv_map / mapping / callback / value vectors and every snapshot consistent) is "
-              "preserved by every event of a quiescent history and makes every step defined (C20_inv_init, C20_inv_step, "
-              "C20_quiescent_crash_free_partial); C20_learn_oldest covers the second controller of an address; "
-              "C20_refines_spec_partial: records of the model = records of the abstract specification (finite map + FIFO) on "
-              "every quiescent history, values included (stage 3: cloneValues keeps the 14-bit composition).  "
-              "The bound of 32 controllers is tight (C20_capacity_refuted, outside the property's quantifier).  "
-              "Not modelled: float overflow / NaN / -0.0.  Also checked on every run by the "
-              "correspondence run (model = code on every generated history incl. all placements of <=3/<=5 deliveries into short "
-              "histories, every state field compared) and the independent Spec oracle. Side condition = classifier "
-              "bind-crosses-use-cc. See notes/C20.md.")
+              "witness (C20_refuted = D19, reproduced on the code, known finding).")
+LEVEL_NOTE = ("Stage 4: the side condition is nocross (weaker than the earlier quiescent: C20_nocross_wider_nonvacuous); it is the same "
+              "predicate in MidiSpec.v and in this file, the model driver prints its value and the correspondence run compares the two on "
+              "every history.  The class bind-crosses-use-cc is contained in its complement and narrower: a failure belongs to it only if "
+              "the controller concerned is pending on the realtime side without an outstanding answer or the other way round (a bind "
+              "removed a controller it does not answer); every other failure in a crossing history is a violation.  Crossing histories in "
+              "which the code behaves as the text says (e.g. clear() between the halves' messages with one controller on its way, "
+              "MidiCross.clear_cross_survives) are covered by the Spec oracle and the correspondence run, not by a theorem.  "
+              "The system invariant Inv (inv_map / mapping / callback / value vectors and every snapshot consistent) is "
+              "preserved by every event of a nocross history and makes every step defined (C20_inv_init, C20_inv_step).  "
+              "The bound of 32 controllers is tight (C20_capacity_refuted, outside the property's quantifier; model and code agree "
+              "beyond it, tie-only cases).  "
+              "Not modelled: float overflow / NaN / -0.0.  See notes/C20.md.")
